@@ -258,10 +258,12 @@ impl<'a, 'b: 'a, R: Read> RowParser<'a, 'b, R> {
                 continue;
             }
 
-            if self.parser.lexer.is_char(b'\n') {
+            // The end of the input terminates the last row too
+            if self.parser.lexer.is_char(b'\n') || self.parser.lexer.cur.value.is_none() {
                 row_terminated = true;
                 break;
             }
+
 
             let val = self.parser.parse_value()?;
             dict.insert(cols[col_num].name.clone(), val);
